@@ -70,9 +70,13 @@ def field_defaults(ctx):
     cls = ctx.model.cls(TN)
     out = {}
     for n in cls.body:
-        if isinstance(n, ast.AnnAssign) and isinstance(n.target, ast.Name) and isinstance(n.value, ast.Constant) \
-                and isinstance(n.value.value, str):
-            out[n.target.id] = n.value.value
+        if not (isinstance(n, ast.AnnAssign) and isinstance(n.target, ast.Name)):
+            continue
+        v = n.value
+        if isinstance(v, ast.Call) and call_name(v) == "field":         # dataclasses.field(default="V")
+            v = next((kw.value for kw in v.keywords if kw.arg == "default"), None)
+        if isinstance(v, ast.Constant) and isinstance(v.value, str):
+            out[n.target.id] = v.value
     ctx.floor("R18c", "fields of TensorNames with a literal default", len(out), 8)
     return out
 
@@ -279,6 +283,16 @@ def bare_expr(v):
 
 # ------------------------------------------------------------------ evaluation of the library
 
+def positional(fn, *values, **named):
+    """Arguments bound the way callers pass them: the leading parameters by position, the rest by keyword."""
+    params = [x.arg for x in fn.args.posonlyargs + fn.args.args]
+    if len(params) < len(values):
+        raise AnalysisError(f"C18: {getattr(fn, '_qual', fn.name)} takes fewer than {len(values)} positional parameters")
+    d = dict(zip(params, values))
+    d.update(named)
+    return d
+
+
 def _get_symbols(sx, a, kw):
     """Contract of indices.get_symbols."""
     b = dict(zip(("indices", "spins"), a))
@@ -352,7 +366,7 @@ class Reader:
         self.n = 0
 
     def __call__(self, text, convert=False):
-        outs = self.sx.run(self.fn, lambda: dict(expr_string=text, convert_default_names=convert))
+        outs = self.sx.run(self.fn, lambda: positional(self.fn, text, convert_default_names=convert))
         self.n += 1
         if len(outs) != 1:
             raise AnalysisError(f"C18: importer evaluation of `{text}` is not deterministic ({len(outs)} outcomes)")
@@ -426,7 +440,7 @@ class Writer:
 
     def __call__(self, cls, *args):
         fn = self.method(cls)
-        outs = self.sx.run(fn, lambda: dict(self=self.obj(cls, *args), printer=Obj(None, "printer")))
+        outs = self.sx.run(fn, lambda: positional(fn, self.obj(cls, *args), Obj(None, "printer")))
         if len(outs) != 1:
             raise AnalysisError(f"C18: printer of {cls} is not deterministic on {args}")
         o = outs[0]
@@ -739,7 +753,7 @@ def r18c(ctx, readers, cfgs):
                     table.setdefault(o, False)
                     table.setdefault(o + "1", False)
             for name, want in sorted(table.items()):
-                kind, v = _run1(ctx, sx, fn, lambda: dict(name=name), f"{fname}({name!r})")
+                kind, v = _run1(ctx, sx, fn, lambda: positional(fn, name), f"{fname}({name!r})")
                 ctx.check(rule, fn, kind == "value" and v is want, f"{fname}({name!r}) is {want} [{tag} names]",
                           f"{fname}({name!r}) gives {v!r} under the {tag} names ({field} = {base!r}), expected {want}: "
                           f"{'a name the library prints for this tensor kind is not recognised' if want else 'a foreign name is taken for this tensor kind'}",
@@ -747,7 +761,7 @@ def r18c(ctx, readers, cfgs):
         fn = ctx.model.fn("tensor_names:is_adc_amplitude")
         for name in others + [cfg["left_adc_amplitude"] + "1", cfg["right_adc_amplitude"] + "cc"]:
             want = name in (cfg["left_adc_amplitude"], cfg["right_adc_amplitude"])
-            kind, v = _run1(ctx, sx, fn, lambda: dict(name=name), f"is_adc_amplitude({name!r})")
+            kind, v = _run1(ctx, sx, fn, lambda: positional(fn, name), f"is_adc_amplitude({name!r})")
             ctx.check(rule, fn, kind == "value" and v is want, f"is_adc_amplitude({name!r}) is {want} [{tag} names]",
                       f"is_adc_amplitude({name!r}) gives {v!r} under the {tag} names, expected {want} (exactly the two configured names)",
                       key=f"is_adc {name} [{tag}]")
@@ -770,7 +784,7 @@ def r18c(ctx, readers, cfgs):
             for nme in cfg.values():
                 want.setdefault(nme, nme)
         for name, w in sorted(want.items()):
-            kind, v = _run1(ctx, sx, fn, lambda: dict(self=tn(), name=name), f"map_default_name({name!r})")
+            kind, v = _run1(ctx, sx, fn, lambda: positional(fn, tn(), name), f"map_default_name({name!r})")
             ctx.check(rule, fn, kind == "value" and v == w, f"map_default_name({name!r}) = {w!r} [{tag} names]",
                       f"map_default_name({name!r}) gives {v!r} under the {tag} names, expected {w!r} (default base replaced by "
                       "the configured one, order/cc extension kept, other names unchanged)", key=f"map {name} [{tag}]")
